@@ -172,6 +172,9 @@ def correlate_samples(variables, sample_vector):
 
     corr_matrix = np.array(
         [[dt.get_correlation(row, col) for col in variables] for row in variables])
+    # a value with zero uncertainty reports no correlation even with itself; its samples are
+    # constant anyway, so keep the unit diagonal or the matrix of the others is never factorized
+    np.fill_diagonal(corr_matrix, 1)
     if np.count_nonzero(corr_matrix - np.diag(np.diagonal(corr_matrix))) == 0:
         return sample_vector  # if no correlations are present
 
